@@ -12,5 +12,9 @@ git -C /repo worktree add -q --detach "$W" HEAD || exit 3
 cleanup() { git -C /repo worktree remove --force "$W" 2>/dev/null; git -C /repo worktree prune; rm -rf /verif/.build/*"$ID"*; }
 trap cleanup EXIT
 git -C "$W" apply "$PATCH" || { echo "patch does not apply"; exit 3; }
-cd /verif && VERIF_REPO=$W timeout 3000 ./check "$PROP" "$@" 2>&1 | grep "^OK\|^VIOLATION\|^INCONCLUSIVE\|^KNOWN\|COUNTEREXAMPLE" | cut -c1-230 | head -12
-echo "exit=${PIPESTATUS[0]}"
+cd /verif && VERIF_REPO=$W timeout 3000 ./check "$PROP" "$@" > "/tmp/scr/$ID.out" 2>&1
+rc=$?
+grep "^OK\|^VIOLATION\|^INCONCLUSIVE\|^KNOWN" "/tmp/scr/$ID.out" | cut -c1-230 | head -8
+grep "COUNTEREXAMPLE\|does not reproduce\|MirError\|ERROR" "/tmp/scr/$ID.out" | cut -c1-260 | head -5
+rm -f "/tmp/scr/$ID.out"
+echo "exit=$rc"
